@@ -482,7 +482,7 @@ def property_files(prop):
     return None
 
 
-def coverage_suite():
+def coverage_suite(tmp):
     """a FIXED set of histories (fixed seed: what it reaches depends only on /repo): a slice of every property's
     quick suite, the panic slice with every fault position"""
     cases = []
@@ -491,7 +491,7 @@ def coverage_suite():
         su = gen.suite(pr, random.Random(7700 + k), "quick")
         cases += su[:120] + su[120::9]
     pb = gen.panic_slice_bases()
-    cases += add_faults(pb, CACHE + "/run/covps", (1, 2, 3, 4), None)
+    cases += add_faults(pb, tmp + ".covps", (1, 2, 3, 4), None)
     adv = [rand_adv for rand_adv in gen.suite("C17", random.Random(7799), "quick")[:200]]
     return cases + adv
 
@@ -515,7 +515,7 @@ def coverage_tie(prop, own_cases_path, tmp):
     d = tmp + ".cov"
     sh(f"rm -rf {d}; mkdir -p {d}")
     with open(d + "/fixed.cases", "w") as f:
-        f.write("\n".join(coverage_suite()) + "\n")
+        f.write("\n".join(coverage_suite(tmp)) + "\n")
     env = dict(ENV)
     for i, (cp, lim) in enumerate(((d + "/fixed.cases", 600), (own_cases_path, 600))):
         env["LLVM_PROFILE_FILE"] = f"{d}/r{i}-%p.profraw"
